@@ -74,9 +74,11 @@ PROPS = {
     "C07": {
         "extra_modules": ["C07b", "C07c"],
         "gens": [{"name": "mix", "quick": 900, "thorough": 4000}, {"name": "ww", "harness": "kernharness", "quick": 3000, "thorough": 20000},
-                 {"name": "vec", "harness": "kernharness", "quick": 4000, "thorough": 30000}],
+                 {"name": "vec", "harness": "kernharness", "quick": 4000, "thorough": 30000},
+                 {"name": "dec", "harness": "kernharness", "quick": 1200, "thorough": 5000},
+                 {"name": "C01", "quick": 1500, "thorough": 6000}],
         "needs": ["apiharness", "kernharness"],
-        "nontrivial": {"unrolled", "shape=inplace", "shape=up", "shape=down", "ww", "len%4=1", "len%4=2", "len%4=3"},
+        "nontrivial": {"unrolled", "inexact", "long", "karatsuba", "shape=inplace", "shape=up", "shape=down", "ww", "len%4=1", "len%4=2", "len%4=3"},
         "rule": ("each of the 12 decimal kernels: assembly vs portable Go vs L0 Lean model (built on the REGENERATED word functions) vs the "
                  "mathematical definition; lengths 0..70 (quick) / 0..400 (thorough), all shift counts 0..18, edge words, separate / in-place / "
                  "shifted-overlap destinations as dec.shl, dec.shr and dnorm use them. distinct = hash of the case line; non-trivial = word kernel, "
